@@ -437,8 +437,11 @@ class DummyCtx:
         def program(ctx):
             box["ghost"] = ctx.ghost
             box["result"] = fn(ctx)
-        Explorer().run(program)
+        paths = Explorer().run(program)
         self.ghost = box.get("ghost")
+        # a concrete evaluation never forks; if it did (a clause produced a symbolic truth value, e.g. a quantifier over the
+        # reals), the outcome is not a verdict about the concrete input
+        self.forked = len(paths) > 1 or any(p.decisions for p in paths)
         return box.get("result")
 
 
@@ -456,6 +459,9 @@ def call_real(fn, args, kwargs=None):
         return ("raise", exc)
 
 
+UNDECIDABLE = "not decidable on concrete values"
+
+
 def eval_clause_concrete(c_or_globals, clause, env):
     interp = Interp(REG, concrete=True)
     interp.tolerant = 1
@@ -463,7 +469,11 @@ def eval_clause_concrete(c_or_globals, clause, env):
     def fn(ctx):
         return REG.eval_clause(interp, clause, c_or_globals, env)
     try:
-        return bool(DummyCtx().run(fn))
+        d = DummyCtx()
+        r = d.run(fn)
+        if d.forked or isinstance(r, Sym):
+            return UNDECIDABLE
+        return bool(r)
     except PyRaise as pr:
         return ("error", repr(pr.exc))
 
@@ -503,6 +513,8 @@ def contract_check_concrete(c, args):
     env = dict(b0.arguments)
     for r in c.requires:
         v = eval_clause_concrete(c, r, env)
+        if v is UNDECIDABLE:
+            continue            # (the sampler is responsible for such preconditions, e.g. positive definiteness)
         if v is not True:
             return "skip", None
     import copy
@@ -528,6 +540,8 @@ def contract_check_concrete(c, args):
         if "_locals" in e:
             continue            # ghost clause about locals at exit: only meaningful for the verifier
         v = eval_clause_concrete(c, e, env)
+        if v is UNDECIDABLE:
+            continue            # not decidable on concrete values (e.g. a quantifier over the reals): left to the proof
         if v is not True:
             return "fail", {"clause": e, "index": j, "real_outcome": _short(out), "clause_value": v}
     return "ok", None
